@@ -1,5 +1,6 @@
 import MaddyVerif.Model.Errors
 import MaddyVerif.Model.ErrorsNextHop
+import MaddyVerif.Model.ErrorsQueueHist
 import MaddyVerif.Generated.SmtpLits
 import MaddyVerif.Expect.SmtpLits
 /-!
@@ -686,5 +687,235 @@ example : (newConnErr (fun _ => []) [some (.smtp 450 ⟨4,4,2⟩ []), some (.smt
     some ⟨451, some ⟨4, 4, 0⟩, .text noMXPrefix⟩ := by decide
 example : (newConnErr (fun _ => []) [some (.smtp 550 ⟨5,7,0⟩ []), some (.smtp 550 ⟨5,7,0⟩ [])]).map toSMTPErr =
     some ⟨550, some ⟨5, 4, 0⟩, .text noMXPrefix⟩ := by decide
+
+
+/-! ## Histories of attempts for one recipient through `tryDelivery`, and the failure report
+(`emitDSN`, `dsn.RecipientInfo.WriteTo`) — strengthening round 5 -/
+
+theorem attemptStep_some (m : Nat) (s : RcptState) (e : Err) :
+    (attemptStep m s (some e)).1.stored = some (toSMTPErr e) ∧
+    (attemptStep m s (some e)).2 ≠ .delivered ∧
+    ((attemptStep m s (some e)).2 = .retry → queueRetries e = true ∧ s.tries + 1 < m) ∧
+    ((attemptStep m s (some e)).2 = .giveUp → queueRetries e = false ∨ m ≤ s.tries + 1) := by
+  simp only [attemptStep, queueRetries]
+  by_cases hc : (!isTemporaryOrUnspec e || decide (s.tries + 1 ≥ m)) = true
+  · rw [if_pos hc]
+    simp at hc
+    refine ⟨rfl, by simp, by simp, ?_⟩
+    intro _
+    rcases hc with h | h
+    · exact Or.inl h
+    · exact Or.inr h
+  · rw [if_neg hc]
+    simp at hc
+    refine ⟨rfl, by simp, ?_, by simp⟩
+    intro _
+    exact ⟨hc.1, hc.2⟩
+
+/-- every observation of a history is the outcome of `attemptStep` on the planned outcome of the
+attempt with the same index -/
+theorem runHist_obs (m : Nat) (u : Bool) (hist : List (Option Err)) :
+    ∀ (s : RcptState) (i : Nat) (o : Obs), (runHist m u s hist)[i]? = some o →
+      ∃ s0 a, hist[i]? = some a ∧ attemptStep m s0 a = (o.state, o.dec) ∧
+        (o.dec = .giveUp → o.report = o.state.stored.bind (reportLine u)) := by
+  induction hist with
+  | nil => intro s i o h; simp [runHist] at h
+  | cons a rest ih =>
+    intro s i o h
+    unfold runHist at h
+    cases hstep : attemptStep m s a with
+    | mk s' d =>
+      rw [hstep] at h
+      cases d with
+      | delivered =>
+        simp only at h
+        cases i with
+        | zero => simp at h; subst h; exact ⟨s, a, by simp, hstep, by simp⟩
+        | succ j => simp at h
+      | giveUp =>
+        simp only at h
+        cases i with
+        | zero => simp at h; subst h; exact ⟨s, a, by simp, hstep, by simp⟩
+        | succ j => simp at h
+      | retry =>
+        simp only at h
+        cases i with
+        | zero => simp at h; subst h; exact ⟨s, a, by simp, hstep, by simp⟩
+        | succ j =>
+          simp at h
+          obtain ⟨s0, a0, h1, h2, h3⟩ := ih s' j o h
+          exact ⟨s0, a0, by simpa using h1, h2, h3⟩
+
+
+/-- **C16 (failure report, one line).** For a stored error that is class-coherent the report shows
+ONE class everywhere: `Status`, the basic code and the enhanced code of `Diagnostic-Code`, and the code
+of the human-readable part. -/
+theorem C16_report_line_coherent (u : Bool) (r : Reply) (h : StoredCoherent r) :
+    ∃ l, reportLine u r = some l ∧ l.diagCode = r.code ∧ l.humanCode = r.code ∧ l.diagEnch = l.status ∧
+      l.status.cls = l.diagCode / 100 ∧ (l.status.cls = 4 ∨ l.status.cls = 5) := by
+  obtain ⟨en, h1, h2, h3⟩ := h
+  have hne : (en.cls == 0) = false := by rcases h3 with h | h <;> simp [h]
+  refine ⟨⟨en, r.code, en, diagText u (msgText r.msg), r.code⟩, ?_, rfl, rfl, rfl, h2, h3⟩
+  simp [reportLine, h1, hne]
+
+/-- Whatever is stored (no hypothesis): a report line that is written carries the stored codes
+unchanged — `Status` IS the enhanced code of `Diagnostic-Code`, nothing is rewritten on the way. -/
+theorem C16_report_line_is_the_stored_error (u : Bool) (r : Reply) (l : ReportLine)
+    (h : reportLine u r = some l) :
+    r.ench = some l.status ∧ l.diagEnch = l.status ∧ l.diagCode = r.code ∧ l.humanCode = r.code := by
+  unfold reportLine at h
+  cases he : r.ench with
+  | none => simp [he] at h
+  | some en =>
+    simp only [he] at h
+    by_cases hz : (en.cls == 0) = true
+    · simp [hz] at h
+    · simp [hz] at h; subst h; exact ⟨rfl, rfl, rfl, rfl⟩
+
+/-- **C16 (failure report, all recipient groups).** A report about any number of recipients whose
+stored errors are class-coherent is generated, has one line per recipient, and every line shows one
+class in `Status`, `Diagnostic-Code` and the human-readable part. -/
+theorem C16_report_all_lines_coherent (u : Bool) (rs : List Reply) (h : ∀ r ∈ rs, StoredCoherent r) :
+    ∃ ls, reportLines u rs = some ls ∧ ls.length = rs.length ∧
+      ∀ l ∈ ls, l.diagEnch = l.status ∧ l.humanCode = l.diagCode ∧ l.status.cls = l.diagCode / 100 ∧
+        (l.status.cls = 4 ∨ l.status.cls = 5) := by
+  induction rs with
+  | nil => exact ⟨[], by simp [reportLines], rfl, by simp⟩
+  | cons r rest ih =>
+    obtain ⟨ls, h1, h2, h3⟩ := ih (fun r' hr' => h r' (List.mem_cons_of_mem _ hr'))
+    obtain ⟨l, hl1, hl2, hl3, hl4, hl5, hl6⟩ := C16_report_line_coherent u r (h r List.mem_cons_self)
+    refine ⟨l :: ls, ?_, by simp [h2], ?_⟩
+    · unfold reportLines at h1 ⊢
+      simp [List.mapM_cons, hl1, h1]
+    · intro l' hl'
+      rcases List.mem_cons.mp hl' with rfl | hm
+      · exact ⟨hl4, by rw [hl3, hl2], hl5, hl6⟩
+      · exact h3 l' hm
+
+/-- every failure of the plan is a value maddy builds (hypotheses of the single-conversion theorems) -/
+def HistOk (hist : List (Option Err)) : Prop :=
+  ∀ e, some e ∈ hist → LeavesCoherent e ∧ MarkersAgree e
+
+/-- **C16 (history: the record is THIS attempt's failure).** For every plan of attempts of any
+length, any attempt bound and any starting state: after a failed attempt number `i` the stored
+error is the conversion of the error of attempt `i` — not of an earlier one —, the report written on
+giving up is the report of that error, a retried failure is one the queue classifies temporary and a
+failure it classifies permanent is given up at once. -/
+theorem C16_history_record_is_this_attempts_failure (m : Nat) (u : Bool) (hist : List (Option Err))
+    (s : RcptState) (i : Nat) (o : Obs) (h : (runHist m u s hist)[i]? = some o)
+    (hd : o.dec ≠ .delivered) :
+    ∃ e, hist[i]? = some (some e) ∧ o.state.stored = some (toSMTPErr e) ∧
+      (o.dec = .giveUp → o.report = reportLine u (toSMTPErr e)) ∧
+      (o.dec = .retry → queueRetries e = true) ∧ (queueRetries e = false → o.dec = .giveUp) := by
+  obtain ⟨s0, a, h1, h2, h3⟩ := runHist_obs m u hist s i o h
+  cases a with
+  | none =>
+    simp [attemptStep] at h2
+    exact absurd h2.2.symm hd
+  | some e =>
+    have hs := attemptStep_some m s0 e
+    rw [h2] at hs
+    obtain ⟨hs1, hs2, hs3, hs4⟩ := hs
+    simp only at hs1 hs2 hs3 hs4
+    refine ⟨e, h1, hs1, ?_, fun hr => (hs3 hr).1, ?_⟩
+    · intro hg; rw [h3 hg, hs1]; rfl
+    · intro hq
+      cases hdec : o.dec with
+      | delivered => exact absurd hdec hd
+      | giveUp => rfl
+      | retry => have := (hs3 hdec).1; rw [hq] at this; cases this
+
+/-- **C16 (history: recorded class = class of the decision taken for that attempt).** For every
+plan whose failures are values maddy builds: a retried attempt leaves a coherent 4yz record; an
+attempt the queue gives up on produces a report whose `Status`, `Diagnostic-Code` and human-readable
+code are of one class — 5 when the failure of THAT attempt is permanent, 4 when it is a temporary
+one whose tries ran out — whatever earlier attempts stored. -/
+theorem C16_history_class_matches_decision (m : Nat) (u : Bool) (hist : List (Option Err))
+    (hok : HistOk hist) (s : RcptState) (i : Nat) (o : Obs)
+    (h : (runHist m u s hist)[i]? = some o) :
+    (o.dec = .retry → ∃ r, o.state.stored = some r ∧ StoredCoherent r ∧ r.code / 100 = 4) ∧
+    (o.dec = .giveUp → ∃ r l e, hist[i]? = some (some e) ∧ o.state.stored = some r ∧ StoredCoherent r ∧
+      o.report = some l ∧ l.diagCode = r.code ∧ l.humanCode = l.diagCode ∧ l.diagEnch = l.status ∧
+      l.status.cls = l.diagCode / 100 ∧
+      (queueRetries e = false → l.diagCode / 100 = 5) ∧ (queueRetries e = true → l.diagCode / 100 = 4)) := by
+  constructor
+  · intro hr
+    obtain ⟨e, h1, h2, _, h4, _⟩ :=
+      C16_history_record_is_this_attempts_failure m u hist s i o h (by rw [hr]; simp)
+    have hmem : some e ∈ hist := List.mem_of_getElem? h1
+    obtain ⟨hl, hm⟩ := hok e hmem
+    exact ⟨toSMTPErr e, h2, C16_queue_record_classes_agree e hl hm,
+      (C16_class_matches_retry e hl hm).1.mp (h4 hr)⟩
+  · intro hg
+    obtain ⟨e, h1, h2, h3, _, _⟩ :=
+      C16_history_record_is_this_attempts_failure m u hist s i o h (by rw [hg]; simp)
+    have hmem : some e ∈ hist := List.mem_of_getElem? h1
+    obtain ⟨hl, hm⟩ := hok e hmem
+    have hco := C16_queue_record_classes_agree e hl hm
+    obtain ⟨l, hl1, hl2, hl3, hl4, hl5, _⟩ := C16_report_line_coherent u (toSMTPErr e) hco
+    refine ⟨toSMTPErr e, l, e, h1, h2, hco, by rw [h3 hg, hl1], hl2, by rw [hl3, hl2], hl4, hl5, ?_, ?_⟩
+    · intro hq; rw [hl2]; exact (C16_class_matches_retry e hl hm).2.mp hq
+    · intro hq; rw [hl2]; exact (C16_class_matches_retry e hl hm).1.mp hq
+
+/-- The queue gives up after at most `maxTries` attempts (counting those already made). -/
+theorem C16_history_length_bounded (m : Nat) (u : Bool) (hist : List (Option Err)) :
+    ∀ s : RcptState, (runHist m u s hist).length + s.tries ≤ max m (s.tries + 1) := by
+  induction hist with
+  | nil => intro s; simp [runHist]; omega
+  | cons a rest ih =>
+    intro s
+    unfold runHist
+    cases hstep : attemptStep m s a with
+    | mk s' d =>
+      cases d with
+      | delivered => simp; omega
+      | giveUp => simp; omega
+      | retry =>
+        simp only [List.length_cons]
+        cases a with
+        | none => simp [attemptStep] at hstep
+        | some e =>
+          have hs := attemptStep_some m s e
+          rw [hstep] at hs
+          have hlt := (hs.2.2.1 rfl).2
+          have hst : s'.tries = s.tries + 1 := by
+            simp only [attemptStep] at hstep
+            split at hstep
+            · simp at hstep
+            · simp at hstep; rw [← hstep]
+          have := ih s'
+          omega
+
+/-- non-vacuity, and the shape of the history the reviewers' change C16-8 breaks: a temporary
+annotated failure (450 4.4.2) is retried and recorded as such; the next attempt fails permanently
+without annotation: the queue gives up and the report says 554 5.0.0, not 450 4.4.2. -/
+example : HistOk [some (.smtp 450 ⟨4,4,2⟩ [104]), some (.withTemp false .plain)] := by
+  intro e he
+  simp at he
+  rcases he with rfl | rfl
+  · exact ⟨by simp [LeavesCoherent, annOk, pairOk], by intro c hc; simp [codeField] at hc; subst hc; simp [tempOf]⟩
+  · exact ⟨by simp [LeavesCoherent], by intro c hc; simp [codeField] at hc⟩
+example : runHist 3 false .init [some (.smtp 450 ⟨4,4,2⟩ [104]), some (.withTemp false .plain)] =
+    [⟨.retry, ⟨1, some ⟨450, some ⟨4,4,2⟩, .text [104]⟩⟩, none⟩,
+     ⟨.giveUp, ⟨0, some ⟨554, some ⟨5,0,0⟩, .generic⟩⟩, some ⟨⟨5,0,0⟩, 554, ⟨5,0,0⟩, genericText, 554⟩⟩] := by
+  decide
+/-- tries run out on a temporary failure (the history C16-9 breaks): reported 450 with Status 4.4.2 -/
+example : runHist 2 false .init [some (.smtp 450 ⟨4,4,2⟩ [104]), some (.smtp 450 ⟨4,4,2⟩ [233])] =
+    [⟨.retry, ⟨1, some ⟨450, some ⟨4,4,2⟩, .text [104]⟩⟩, none⟩,
+     ⟨.giveUp, ⟨0, some ⟨450, some ⟨4,4,2⟩, .text [233]⟩⟩, some ⟨⟨4,4,2⟩, 450, ⟨4,4,2⟩, [63], 450⟩⟩] := by
+  decide
+
+/-- non-vacuity of the report theorems: a stored 450 4.4.2 and a stored 554 5.0.0 are coherent, and a
+report about both has the two lines `Status: 4.4.2` / `450 4.4.2` and `Status: 5.0.0` / `554 5.0.0` -/
+example : ∀ r ∈ [(⟨450, some ⟨4,4,2⟩, .text [104]⟩ : Reply), ⟨554, some ⟨5,0,0⟩, .generic⟩], StoredCoherent r := by
+  intro r hr
+  simp at hr
+  rcases hr with rfl | rfl
+  · exact ⟨⟨4,4,2⟩, rfl, by decide, by decide⟩
+  · exact ⟨⟨5,0,0⟩, rfl, by decide, by decide⟩
+example : reportLines true [⟨450, some ⟨4,4,2⟩, .text [104, 10, 233]⟩, ⟨554, some ⟨5,0,0⟩, .generic⟩] =
+    some [⟨⟨4,4,2⟩, 450, ⟨4,4,2⟩, [104, 32, 233], 450⟩, ⟨⟨5,0,0⟩, 554, ⟨5,0,0⟩, genericText, 554⟩] := by decide
+/-- an unset stored status cannot be reported at all ("dsn: Status is required") -/
+example : reportLines false [⟨450, some ⟨0,0,0⟩, .text []⟩] = none := by decide
 
 end MaddyVerif.C16
